@@ -13,7 +13,7 @@ from typing import Any
 
 from verif import core, fleet
 from verif import storage_k as K
-from verif.props import c01_grpc, c01_inmem, c01_inmem_gen, c01_rdb
+from verif.props import c01_grpc, c01_grpc_gen, c01_inmem, c01_inmem_gen, c01_rdb
 
 RULE = (
     "seeded histories of BaseStorage calls (<=3 studies sharing the id space, <=8 trials, ~4% unknown ids, 15% "
@@ -176,10 +176,13 @@ def main(chk: core.Check) -> int:
     chk.rule = RULE + "; gRPC wire level: " + c01_grpc.RULE
     c01_rdb.translate(chk)  # Generated/RdbCodec.lean (models.py codecs) + Generated/Best.lean, before the proofs are rebuilt
     c01_grpc.regenerate(chk)  # T-grpc: Generated/GrpcTables.lean from servicer.py / client.py / api.proto
+    c01_grpc_gen.regenerate(chk)  # T-grpc2: Generated/GrpcMethods.lean = the method bodies of servicer.py / client.py as IR
     c01_inmem_gen.regenerate(chk)  # T-inmem: Generated/InMemoryMethods.lean from storages/_in_memory.py (+ two methods of _base.py)
     if not getattr(chk, "no_prove", False):
-        chk.prove(["OptunaVerif.Props.C01", "OptunaVerif.Props.C01InMem", c01_inmem_gen.MODULE, "OptunaVerif.Props.C01Rdb", c01_grpc.PROPS_MODULE])
+        chk.prove(["OptunaVerif.Props.C01", "OptunaVerif.Props.C01History", "OptunaVerif.Props.C01InMem", c01_inmem_gen.MODULE, "OptunaVerif.Props.C01Rdb", c01_grpc.PROPS_MODULE,
+                   *c01_grpc_gen.MODULES])
         c01_inmem_gen.explain_proof_failure(chk)
+        c01_grpc_gen.explain_proof_failure(chk)
     quick = chk.tier == "quick"
     try:
         correspond(chk, n_hist=100 if quick else 500, n_ops=(5, 60) if quick else (5, 200),
